@@ -9,6 +9,9 @@ import WpModel.Model.ImageDedupe
 import WpModel.Model.ImageDraw
 import WpModel.Model.ReplacedDoc
 import WpModel.Model.RasterEmbed
+import WpModel.Model.SvgViewport
+import WpModel.Model.ImageOrient
+import WpModel.Model.ReplacedPreferred
 
 namespace Wp.Drive.Replaced
 open Wp Wp.Replaced
@@ -320,6 +323,53 @@ def handle (cmd : String) (args : List Sx) : Option String :=
       | .ok (r, x) => "ok " ++ " ".intercalate [r.mode.pillow, toString r.jpeg, toString r.reencoded,
           toString r.invert, x.colorSpace, x.filter, toString x.colors3, toString x.smask,
           toString x.decodeInverted, if RasterEmbed.faithful r then "pixels-same" else "pixels-unchecked"])
+  | "svgratio", [vb, root, iw, ih, .list parWords, marker, w, h] => do
+    -- the preserveAspectRatio string travels as the list of its characters' code points (it may hold blanks)
+    let cps ← allSome Sx.nat? parWords
+    let par := String.ofList (cps.map Char.ofNat)
+    let marker ← match marker with
+      | .atom "none" => some none
+      | .list [a, b] => do pure (some ((← a.rat?), (← b.rat?)))
+      | _ => none
+    let r := SvgViewport.preserveRatio (← rats? vb) (← root.bool?) ((← optRat? iw), (← optRat? ih)) par marker
+      (← w.rat?) (← h.rat?)
+    pure (match r with
+      | .ok r => "ok " ++ " ".intercalate [showRat r.sx, showRat r.sy, showRat r.tx, showRat r.ty]
+      | .error e => e.render)
+  | "svgroot", [vb, iw, ih, .list parWords, w, h] => do
+    let cps ← allSome Sx.nat? parWords
+    let r := SvgViewport.rootTransform (← rats? vb) ((← optRat? iw), (← optRat? ih))
+      (String.ofList (cps.map Char.ofNat)) (← w.rat?) (← h.rat?)
+    pure (match r with
+      | .ok r => "ok " ++ " ".intercalate [showRat r.sx, showRat r.sy, showRat r.tx, showRat r.ty]
+      | .error e => e.render)
+  | "svgimage", [w, h, iw, ih, ir] => do
+    pure (match SvgViewport.imageBox (← w.rat?) (← h.rat?) (← optRat? iw) (← optRat? ih) (← optRat? ir) with
+      | .ok (a, b, c, d) => "ok " ++ " ".intercalate [showRat a, showRat b, showRat c, showRat d]
+      | .error e => e.render)
+  | "orientangle", [q] => do
+    pure (toString (ImageOrient.computedAngle (← q.rat?)))
+  | "orient", [.atom kind, angle, flip, .list rows] => do
+    let rows ← allSome (fun r => r.list?.bind (allSome Sx.nat?)) rows
+    let a ← angle.nat?
+    let f ← flip.bool?
+    let o : ImageOrient.Orientation := if kind == "none" then .none else if kind == "from-image" then .fromImage
+      else .turn a f
+    let r := ImageOrient.rotatePillow (ImageOrient.Img.ofRows 0 rows) o
+    pure ("ok " ++ toString r.2 ++ " " ++ toString r.1.w ++ " " ++ toString r.1.h ++ " (" ++
+      " ".intercalate (r.1.rows.map (fun row => "(" ++ " ".intercalate (row.map toString) ++ ")")) ++ ")")
+  | "prefwidth", [minimum, outer, .list [w, h, minw, maxw, minh, maxh, ml, mr, pl, pr, bl, br], i] => do
+    let od (x : Sx) : Option (Option Dim) := match x with
+      | .atom "auto" => some none
+      | .atom "none" => some none
+      | x => (dim? x).map some
+    let s : PrefStyle := ⟨← od w, ← od h, ← od minw, ← od maxw, ← od minh, ← od maxh, ← od ml, ← od mr,
+      ← dim? pl, ← dim? pr, ← bl.rat?, ← br.rat?⟩
+    let i ← intr? i
+    let mn ← minimum.bool?
+    let ou ← outer.bool?
+    let r := if mn then replacedMinContentWidth s i ou else replacedMaxContentWidth s i ou
+    pure (out showRat r)
   | "docok", _ => some "ok"          -- a generated document was rendered and read back (structure checks of the harness)
   | "imgcount", [.list draws] => do
     let draws ← allSome draw? draws
